@@ -330,14 +330,17 @@ def run(ctx):
                        "`Mid`; behind 4–376 bytes of padding state) — every test alone from scratch with the interpreter (oracle) vs the "
                        "same tests in 5 orders (identity, reverse, 2 shuffles, every test twice) through one ProtoModuleCache, with "
                        "Config::dut_reuse + compute_recurring_set (the CLI path) and with dut_reuse without it (first-seer fallback), "
-                       "one process per sequence; engines interpreter/Cranelift/cc. Compared: port traces per test; variable layout and "
+                       "one process per sequence; engines interpreter/Cranelift/cc. Every third suite (the first included) is of the `reads` family: "
+                       "3–4 tops with an IDENTICAL comb part (same lets/assigns, same layout, same comb-pipeline fingerprint) whose two "
+                       "always_ff blocks read different comb signals of it (c1 only / c2 only / both / neither), so a cached comb pipeline "
+                       "with its dead-variable set must not serve a top that reads what the first one left dead. Compared: port traces per test; variable layout and "
                        "full state per test across orders; DUT-internal bytes of twin tops; second-instance offsets vs the model's "
                        "single-delta prediction. CLI: generated projects with native testbenches (and doc-test-only projects), "
                        "`veryl test --format json --seed 7` with VERYL_DUT_REUSE=1 vs 0, canonical reports equal")
     if not harness_build(ctx):
         return
     args = ["--seed", ctx.seed, "--n", tier_n(ctx, 12, 200), "--cycles", tier_n(ctx, 8, 14), "--par", 4,
-            "--budget-s", tier_n(ctx, 50, 3000), "--min-n", tier_n(ctx, 1, 2), "--thorough", tier_n(ctx, 0, 1)]
+            "--budget-s", tier_n(ctx, 50, 3000), "--min-n", 2, "--thorough", tier_n(ctx, 0, 1)]
     if getattr(ctx, "replay", None):
         args = ["--replay", _replay_file(ctx), "--cycles", tier_n(ctx, 8, 14), "--par", 4]
     rc, out, d = run_hx(ctx, "reuse", args, timeout=tier_n(ctx, 1500, 7200))
